@@ -35,6 +35,7 @@ import (
 )
 
 type config struct {
+	Method string `json:"method"`
 	Body   string `json:"body"`
 	Ct     string `json:"ct"`
 	Csp    string `json:"csp"`
@@ -69,6 +70,7 @@ type tcase struct {
 	Nonces   []string     `json:"nonces"`
 	CspLines [][][]cspDir `json:"csplines"`
 	Doc      specDoc      `json:"doc"`
+	Status   string       `json:"status"` // "ok" | "badgateway": what the spec (as configured) predicts
 	Fates    []string     `json:"fates"`
 	Enc      string       `json:"enc"`
 	Cl       string       `json:"cl"`
@@ -387,6 +389,8 @@ func contentType(ct string, rng *rand.Rand) (string, bool) {
 		return "text/html", false
 	case "htmlcharset":
 		return []string{"text/html; charset=utf-8", "text/html;charset=UTF-8"}[rng.Intn(2)], false
+	case "htmlcase":
+		return []string{"TEXT/HTML", "Text/Html; charset=utf-8", "text/HTML;charset=UTF-8"}[rng.Intn(3)], false
 	case "other":
 		return []string{"application/json", "text/plain; charset=utf-8", "application/xhtml+xml", "text/css", "application/octet-stream"}[rng.Intn(5)], false
 	case "none":
@@ -504,6 +508,7 @@ func (e *env) nextID() string {
 }
 
 type outcome struct {
+	headAsModelled  bool   // HEAD: the real response is altered the way the spec's as-coded pipeline predicts
 	nonceFailure    bool   // the failing invariant is about the nonce of the reload script
 	nonceAsModelled bool   // the real nonce attribute is what the spec's nonce extraction (as configured) yields
 	invariant       string // "" = property holds
@@ -516,6 +521,13 @@ type outcome struct {
 // signature names the root cause as the spec names it: the branch of modifyResponse's decision, or -- for a
 // nonce failure that the spec's nonce extraction reproduces exactly -- the branch of that extraction.
 func signature(tc tcase, o outcome) string {
+	if tc.Cfg.Method == "HEAD" && o.headAsModelled {
+		for _, p := range tc.Path {
+			if strings.HasPrefix(p, "Head.") {
+				return p + ":" + o.invariant
+			}
+		}
+	}
 	if o.nonceFailure && o.nonceAsModelled {
 		for _, p := range tc.Path {
 			if strings.HasPrefix(p, "ParseNonce.") {
@@ -559,7 +571,11 @@ func (e *env) exchange(tc tcase, size int, rng *rand.Rand) outcome {
 	store.Store(id, p)
 	defer store.Delete(id)
 
-	req, _ := http.NewRequest(http.MethodGet, e.proxyURL+"/page/"+id, nil)
+	method := http.MethodGet
+	if c.Method == "HEAD" {
+		method = http.MethodHead
+	}
+	req, _ := http.NewRequest(method, e.proxyURL+"/page/"+id, nil)
 	req.Header.Set("X-Verif-Case", id)
 	if c.Accept == "browser" {
 		req.Header.Set("Accept-Encoding", "gzip, deflate, br, zstd")
@@ -592,6 +608,26 @@ func (e *env) exchange(tc tcase, size int, rng *rand.Rand) outcome {
 		}
 	}
 	o.rep.GotHeaders = strings.Join(hs, " | ")
+	if c.Method == "HEAD" {
+		// HeadIsUntouched: no body to append to -- status, declared length, encoding and type are the upstream's
+		cl := resp.Header.Get("Content-Length")
+		o.headAsModelled = (tc.Status == "badgateway") == (resp.StatusCode == http.StatusBadGateway) &&
+			(tc.Cl == "synthetic") == (resp.StatusCode == http.StatusOK && cl != strconv.Itoa(len(wire)))
+		switch {
+		case resp.StatusCode != http.StatusOK:
+			return bad("HeadIsUntouched", fmt.Sprintf("HEAD: status %d instead of the upstream's 200 (upstream headers: Content-Type %q, Content-Encoding %q, Content-Length %d)", resp.StatusCode, ct, tok, len(wire)))
+		case len(raw) != 0:
+			return bad("HeadIsUntouched", fmt.Sprintf("HEAD: %d body bytes received", len(raw)))
+		case cl != strconv.Itoa(len(wire)):
+			return bad("HeadIsUntouched", fmt.Sprintf("HEAD: Content-Length %q, the upstream declared %d (the length of the resource)", cl, len(wire)))
+		case resp.Header.Get("Content-Encoding") != tok:
+			return bad("HeadIsUntouched", fmt.Sprintf("HEAD: Content-Encoding %q became %q", tok, resp.Header.Get("Content-Encoding")))
+		}
+		if tc.Status != "ok" || tc.Cl != "match" {
+			o.drift = "spec (as configured for this tree) predicts an altered HEAD response, the real proxy passed it through"
+		}
+		return o
+	}
 	if resp.StatusCode != http.StatusOK {
 		return bad("PassThroughIsIdentity", fmt.Sprintf("status %d instead of 200", resp.StatusCode))
 	}
@@ -801,7 +837,23 @@ func main() {
 		if ol.invariant != "" {
 			csprule = "firstline"
 		}
-		vhlib.Summary(map[string]any{"rule": rule, "detail": ou.detail, "csprule": csprule, "cspdetail": ol.detail})
+		// (c) a HEAD request for an html page, (d) a page whose content type is spelled TEXT/HTML
+		h := find(tcs, config{Method: "HEAD", Body: "full", Ct: "html", Csp: "none", Enc: "none", Req: "plain", Accept: "browser"})
+		h.Status, h.Cl = "ok", "match"
+		oh := e.exchange(h, 600, rng)
+		headrule := "pass"
+		if oh.invariant != "" {
+			headrule = "rewrite"
+		}
+		k := find(tcs, config{Body: "full", Ct: "htmlcase", Csp: "none", Enc: "none", Req: "plain", Accept: "browser"})
+		k.MustPass, k.Inserted = false, 1
+		ok := e.exchange(k, 600, rng)
+		ctrule := "caseinsensitive"
+		if ok.invariant != "" {
+			ctrule = "casesensitive"
+		}
+		vhlib.Summary(map[string]any{"rule": rule, "detail": ou.detail, "csprule": csprule, "cspdetail": ol.detail,
+			"headrule": headrule, "headdetail": oh.detail, "ctrule": ctrule, "ctdetail": ok.detail})
 	case "selftest":
 		// binding self-test: corrupted predictions must be reported
 		tcs := loadCases(os.Args[2])
@@ -848,6 +900,9 @@ func loadCases(path string) []tcase {
 }
 
 func find(tcs []tcase, c config) tcase {
+	if c.Method == "" {
+		c.Method = "GET"
+	}
 	for _, tc := range tcs {
 		if tc.Cfg == c {
 			return tc
@@ -895,7 +950,7 @@ func cases(args []string) {
 	bigAt := map[int]bool{}
 	var rw, pt []int
 	for i, tc := range tcs {
-		if tc.Cfg.Body == "empty" {
+		if tc.Cfg.Body == "empty" || tc.Cfg.Method == "HEAD" {
 			continue
 		}
 		if tc.MustPass {
@@ -915,6 +970,11 @@ func cases(args []string) {
 	for i, tc := range tcs {
 		if tc.Cfg.Body == "empty" {
 			jobs = append(jobs, job{i, 0})
+			continue
+		}
+		if tc.Cfg.Method == "HEAD" {
+			// no body travels: one exchange, the size only sets the Content-Length the upstream declares
+			jobs = append(jobs, job{i, 300 + rng.Intn(40000)})
 			continue
 		}
 		jobs = append(jobs, job{i, 300 + rng.Intn(900)})
